@@ -121,6 +121,13 @@ func (p *Parser) ExtractPatterns(file *ast.File, info *types.Info, wireAlias str
 					continue
 				}
 
+				// The injector body is often written panic(wire.Build(...))
+				if fn, isIdent := call.Fun.(*ast.Ident); isIdent && fn.Name == "panic" && len(call.Args) == 1 {
+					if inner, isCall := call.Args[0].(*ast.CallExpr); isCall {
+						call = inner
+					}
+				}
+
 				// Check if it's a wire.Build call
 				sel, ok := call.Fun.(*ast.SelectorExpr)
 				if !ok {
